@@ -168,6 +168,8 @@ impl<'a> Tr<'a> {
             }
         }
         let ret = self.ctx.coq_ty(&f.ret_full()).map_err(|m| format!("return type: {} at {}:{}", m, self.file, f.line))?;
+        // a function that builds a value with ambient fields returns them next to the record: Coq infers the type
+        let ret = if f.ambient_out { "_".to_string() } else { ret };
         let mut prefix = String::new();
         for (pat, c, t) in destructure {
             let (e2, s) = self.bind_pat(&pat, val(c, t), &env)?;
@@ -325,6 +327,23 @@ impl<'a> Tr<'a> {
                     None => return self.err(s, "untranslatable: `let` without initialiser"),
                 };
                 let pat = pat.clone();
+                if let (Expr::Call(c), Pat::Ident(pi)) = (strip_parens(init), &pat) {
+                    // `let mut buf = Vec::new();` that nothing of what is translated mentions (its users sit in a skipped
+                    // arm): dropped (the element type of the empty list could not be inferred)
+                    if c.args.is_empty() && matches!(norm_tokens(&c.func).as_str(), "Vec::new" | "ArrayVec::new") && ann.is_none() {
+                        fn mentions(ts: proc_macro2::TokenStream, id: &str) -> bool {
+                            ts.into_iter().any(|t| match t {
+                                proc_macro2::TokenTree::Ident(i) => i == id,
+                                proc_macro2::TokenTree::Group(g) => mentions(g.stream(), id),
+                                _ => false,
+                            })
+                        }
+                        let id = pi.ident.to_string();
+                        if !rest.iter().any(|st| mentions(quote::quote!(#st), &id)) {
+                            return self.block(rest, env, exp, k);
+                        }
+                    }
+                }
                 if let (Expr::Closure(cl), Pat::Ident(pi)) = (strip_parens(init), &pat) {
                     if cl.inputs.is_empty() {
                         // a parameterless closure: its body is translated at each call `name()`
@@ -499,6 +518,8 @@ impl<'a> Tr<'a> {
                         format!("({} ++ {})", cur.t, x.t)
                     }
                     ("clear", 0) => "[]".to_string(),
+                    // capacity only (the argument is not evaluated: it has no effect on the list)
+                    ("reserve", 1) => cur.t.clone(),
                     ("truncate", 1) if norm_tokens(&mc.args[0]) == "0" => "[]".to_string(),
                     ("sort_by", 1) => {
                         // the only comparator understood: |a, b| a.partial_cmp(b).unwrap() on f64 (ascending; the
@@ -604,15 +625,35 @@ impl<'a> Tr<'a> {
         if fl.label.is_some() {
             return self.err(fl, "untranslatable: labelled loop");
         }
-        let it = match strip_parens(&fl.expr) {
+        // `(lo..hi).rev()`: the same list, reversed
+        let (range_e, reversed) = match strip_parens(&fl.expr) {
+            Expr::MethodCall(mc) if mc.method == "rev" && mc.args.is_empty() && matches!(strip_parens(&mc.receiver), Expr::Range(_)) => (strip_parens(&mc.receiver), true),
+            e0 => (e0, false),
+        };
+        let it = match range_e {
             // `lo..hi` over integers: the list lo, lo+1, .., hi-1 (empty when hi <= lo)
             Expr::Range(r) if matches!(r.limits, syn::RangeLimits::HalfOpen(_)) && r.start.is_some() && r.end.is_some() => {
-                let lo = self.expr(r.start.as_ref().unwrap(), env, Some(&Ty::Int))?;
-                let hi = self.expr(r.end.as_ref().unwrap(), env, Some(&Ty::Int))?;
-                if lo.ty != Ty::Int || hi.ty != Ty::Int {
-                    return self.err(fl, "untranslatable: `for` over this range");
+                let hi = self.expr(r.end.as_ref().unwrap(), env, None)?;
+                let l = if hi.ty == Ty::Nat {
+                    // usize as nat (spec `usize_as_nat`): `seq lo (hi - lo)`
+                    let lo = self.expr(r.start.as_ref().unwrap(), env, Some(&Ty::Nat))?;
+                    if lo.ty != Ty::Nat {
+                        return self.err(fl, "untranslatable: `for` over this range");
+                    }
+                    val(format!("(seq {} (Nat.sub {} {}))", lo.t, hi.t, lo.t), Ty::List(Box::new(Ty::Nat)))
+                } else {
+                    let lo = self.expr(r.start.as_ref().unwrap(), env, Some(&Ty::Int))?;
+                    let hi = self.expr(r.end.as_ref().unwrap(), env, Some(&Ty::Int))?;
+                    if lo.ty != Ty::Int || hi.ty != Ty::Int {
+                        return self.err(fl, "untranslatable: `for` over this range");
+                    }
+                    val(format!("(map (fun tr_k => (Z.add {} (Z.of_nat tr_k))) (seq 0 (Z.to_nat (Z.sub {} {}))))", lo.t, hi.t, lo.t), Ty::List(Box::new(Ty::Int)))
+                };
+                if reversed {
+                    val(format!("(rev {})", l.t), l.ty)
+                } else {
+                    l
                 }
-                val(format!("(map (fun tr_k => (Z.add {} (Z.of_nat tr_k))) (seq 0 (Z.to_nat (Z.sub {} {}))))", lo.t, hi.t, lo.t), Ty::List(Box::new(Ty::Int)))
             }
             _ => self.expr(&fl.expr, env, None)?,
         };
@@ -621,6 +662,9 @@ impl<'a> Tr<'a> {
             Ty::List(t) => (**t).clone(),
             t => return self.err(fl, format!("untranslatable: `for` over a value of type {} (only lists)", t.show())),
         };
+        if let (Some(g), true) = (&self.f.for_step, self.loops.borrow().is_empty()) {
+            return self.for_step_loop(fl, g, it, elt, rest, env, exp, k);
+        }
         let body_e = Expr::Block(syn::ExprBlock { attrs: vec![], label: None, block: fl.body.clone() });
         let mut muts = self.mutated_outer(&body_e, env)?;
         // `for x in &mut self.elements`: the loop consumes the iterator stored in that place; inside the
@@ -727,6 +771,86 @@ impl<'a> Tr<'a> {
         }
     }
 
+    /// `for_step`: the function's top-level `for PAT in LIST` as a fold over the list whose body is one call of the
+    /// generated step function `g` (translated from the same loop body under its own `for_body_state` entry):
+    /// `Some r` returns `r` from the function, `None` goes on with the new state and the rest of the list
+    fn for_step_loop(&self, fl: &syn::ExprForLoop, g: &str, it: Val, elt: Ty, rest: &[Stmt], env: &Env, exp: Option<&Ty>, k: &K) -> R<String> {
+        let i = match self.ctx.fns.iter().position(|x| x.gen == g && x.for_body) {
+            Some(i) => i,
+            None => return self.err(fl, format!("for_step: no `for_body_state` entry with gen `{}` in the spec", g)),
+        };
+        let sf = &self.ctx.fns[i];
+        if sf.file != self.f.file || sf.name != self.f.name || sf.impl_ty != self.f.impl_ty {
+            return self.err(fl, format!("for_step: `{}` is not the loop body of this function", g));
+        }
+        self.deps.borrow_mut().insert(i);
+        let n = {
+            let mut c = self.counter.borrow_mut();
+            *c += 1;
+            *c
+        };
+        let (lp, lv, rv, xv) = (format!("tr_loop{}", n), format!("tr_l{}", n), format!("tr_r{}", n), format!("tr_x{}", n));
+        let (env2, pre) = self.bind_pat(&fl.pat, val(xv.clone(), elt.clone()), env)?;
+        // the arguments of the step: its state variables (the accumulators of the fold) and the other variables it reads
+        let mut args: Vec<String> = Vec::new();
+        let mut names: Vec<String> = Vec::new();
+        let mut binders = String::new();
+        for b in &sf.extra_binders {
+            if !self.ambient.borrow().iter().any(|x| x.0 == b.0) {
+                return self.err(fl, format!("untranslatable: the step function needs the ambient `{}` which is not in scope", b.0));
+            }
+            args.push(b.0.clone());
+        }
+        for (j, p) in sf.params.iter().enumerate() {
+            let is_state = sf.mut_params.contains(&j);
+            let (_, c, ty) = match (if is_state { env.get(&p.name) } else { env2.get(&p.name) }) {
+                Some(x) => x,
+                None => return self.err(fl, format!("for_step: the variable `{}` of the step function is not in scope at the loop", p.name)),
+            };
+            if !self.compatible(ty, &p.ty) {
+                return self.err(fl, format!("for_step: `{}` has type {} here, {} in the step function", p.name, ty.show(), p.ty.show()));
+            }
+            args.push(c.clone());
+            if is_state {
+                names.push(c.clone());
+                let ct = self.ctx.coq_ty(&p.ty).map_err(|m| format!("for_step: {}", m))?;
+                binders.push_str(&format!(" ({} : {})", c, ct));
+            }
+        }
+        // every variable the body assigns must be state of the step (anything else would be lost)
+        let body_e = Expr::Block(syn::ExprBlock { attrs: vec![], label: None, block: fl.body.clone() });
+        for m in self.mutated_outer(&body_e, env)? {
+            let c = &env.get(&m).unwrap().1;
+            if !self.f.skip_arms.is_empty() && self.f.params.first().map_or(false, |p| p.name == m) {
+                continue; // the placeholder `x = x` that stands for the body of a skipped arm
+            }
+            if !names.contains(c) {
+                return self.err(fl, format!("for_step: the loop body assigns `{}`, which is not a state variable of `{}`", m, g));
+            }
+        }
+        let argl = names.iter().map(|x| format!(" {}", x)).collect::<String>();
+        let end_term = self.block(rest, env, exp, k)?;
+        let ret_term = self.finish(val(format!("tr_v{}", n), self.f.ret.clone()))?;
+        Ok(format!(
+            "((fix {lp} ({lv} : list {et}){bs} {{struct {lv}}} := match {lv} with\n  | [] => {end}\n  | {xv} :: {rv} => {pre}let '(tr_o{n}, {outs}) := ({g} {args}) in\n  (match tr_o{n} with\n  | Some tr_v{n} => {ret}\n  | None => ({lp} {rv}{argl})\n  end)\n  end) {it}{argl})",
+            lp = lp,
+            lv = lv,
+            et = self.ctx.coq_ty(&elt).unwrap_or_else(|_| "_".to_string()),
+            bs = binders,
+            end = end_term,
+            xv = xv,
+            rv = rv,
+            pre = pre,
+            n = n,
+            outs = names.join(", "),
+            g = sf.gen,
+            args = args.join(" "),
+            ret = ret_term,
+            argl = argl,
+            it = it.t
+        ))
+    }
+
     /// A one-parameter closure used as an argument of an iterator combinator: `(fun x => body)` and the
     /// type of the body.  The body must be pure.
     fn closure1(&self, c: &Expr, arg: &Ty, env: &Env) -> R<(String, Ty)> {
@@ -819,9 +943,24 @@ impl<'a> Tr<'a> {
         if w.label.is_some() {
             return self.err(w, "untranslatable: labelled loop");
         }
-        if self.f.fuel.is_none() {
+        if self.f.fuel.is_none() && self.f.fuel_local.is_none() {
             return self.err(w, "untranslatable: `while` (the spec gives no iteration bound for this function)");
         }
+        let fuel_term = match &self.f.fuel_local {
+            Some(fl) => {
+                let fe = match syn::parse_str::<Expr>(fl) {
+                    Ok(x) => x,
+                    Err(_) => return self.err(w, "spec: `fuel_local` is not a Rust expression"),
+                };
+                let fv = self.expr(&fe, env, Some(&Ty::Int))?;
+                match fv.ty {
+                    Ty::Int => format!("(Z.to_nat {})", fv.t),
+                    Ty::Nat => fv.t,
+                    t => return self.err(w, format!("spec: `fuel_local` has type {}", t.show())),
+                }
+            }
+            None => "tr_fuel_".to_string(),
+        };
         let whole = Expr::While(w.clone());
         let body_e = Expr::Block(syn::ExprBlock { attrs: vec![], label: None, block: w.body.clone() });
         let mut assigned = Vec::new();
@@ -895,7 +1034,10 @@ impl<'a> Tr<'a> {
                 match cv {
                     Ok(cv) => {
                         self.check_ty(&cv.ty, &Ty::Bool, "loop condition")?;
-                        let b = self.block(&w.body.stmts, env, None, &body_k);
+                        let b = match &self.f.while_step {
+                            Some(g) => self.step_call(w, g, env, &ct2, n),
+                            None => self.block(&w.body.stmts, env, None, &body_k),
+                        };
                         b.map(|b| format!("(if {} then\n  {}\n  else\n  {})", cv.t, b, et2))
                     }
                     Err(e) => Err(e),
@@ -905,7 +1047,8 @@ impl<'a> Tr<'a> {
         self.loops.borrow_mut().pop();
         let test = test?;
         let fix = format!(
-            "((fix {lp} ({fv} : nat){bs} {{struct {fv}}} := match {fv} with\n  | O => {end}\n  | S {gv} => {test}\n  end) tr_fuel_{args})",
+            "((fix {lp} ({fv} : nat){bs} {{struct {fv}}} := match {fv} with\n  | O => {end}\n  | S {gv} => {test}\n  end) {fuel}{args})",
+            fuel = fuel_term,
             lp = lp,
             fv = fv,
             bs = binders,
@@ -933,7 +1076,15 @@ impl<'a> Tr<'a> {
                 let i = self.ctx.fns.iter().position(|x| x.gen == next)?;
                 self.deps.borrow_mut().insert(i);
                 let fu = fuel.replace("$0", &v.t);
-                let ity = if self.ctx.types.contains_key(&item) { Ty::Named(item) } else { Ty::Unknown };
+                let ity = if self.ctx.types.contains_key(&item) {
+                    Ty::Named(item)
+                } else {
+                    // a Rust type written out in the spec, e.g. "(f64, f64, QuadBez)" for `ToQuads`
+                    match syn::parse_str::<syn::Type>(&item) {
+                        Ok(t) => self.ctx.ty_of(&t, None, None, &self.generics()),
+                        Err(_) => Ty::Unknown,
+                    }
+                };
                 return Some(val(format!("(tr_drain {} {} {})", next, fu, v.t), Ty::List(Box::new(ity))));
             }
         }
@@ -992,13 +1143,14 @@ impl<'a> Tr<'a> {
             }
         }
         Ok(format!(
-            "let '({}) := ({} {}) in\n  (match tr_r{} with\n  | Some tr_v{} => tr_v{}\n  | None => {}\n  end)",
+            "let '({}) := ({} {}) in\n  (match tr_r{} with\n  | Some tr_v{} => {}\n  | None => {}\n  end)",
             outs.join(", "),
             sf.gen,
             args.join(" "),
             n,
             n,
-            n,
+            // a step whose body has no `return` never yields `Some`: that branch is the loop exit (the current state)
+            if sf.ret == Ty::Unit && self.f.ret != Ty::Unit { self.loops.borrow().last().map(|l| l.1.clone()).unwrap_or_default() } else { format!("tr_v{}", n) },
             cont
         ))
     }
@@ -1724,13 +1876,15 @@ impl<'a> Tr<'a> {
                     return self.err(e, "untranslatable: struct update syntax");
                 }
                 let tn = self.resolve_type_path(&s.path)?;
-                if self.ctx.types[&tn].partial || !self.ctx.types[&tn].ambient.is_empty() {
+                let amb = self.ctx.types[&tn].ambient.clone();
+                let amb_out = self.f.ambient_out && !amb.is_empty() && !self.ctx.types[&tn].partial;
+                if self.ctx.types[&tn].partial || (!amb.is_empty() && !amb_out) {
                     return self.err(e, format!("untranslatable: struct literal of {} (only part of it is in the Coq record)", tn));
                 }
                 match &self.ctx.types[&tn].kind {
                     TypeKind::Record { ctor, fields } => {
                         let mut args = Vec::new();
-                        if s.fields.len() != fields.len() {
+                        if s.fields.len() != fields.len() + if amb_out { amb.len() } else { 0 } {
                             return self.err(e, format!("struct literal of {} with {} fields, spec has {}", tn, s.fields.len(), fields.len()));
                         }
                         // Rust evaluates field initialisers in source order; they are pure here
@@ -1744,6 +1898,22 @@ impl<'a> Tr<'a> {
                                 }
                                 None => return self.err(e, format!("struct literal of {} lacks field {}", tn, rf)),
                             }
+                        }
+                        if amb_out {
+                            // the constant fields, which live outside the Coq record, next to it
+                            let mut avs = Vec::new();
+                            for (rf, _, aty) in &amb {
+                                let fv = s.fields.iter().find(|x| matches!(&x.member, syn::Member::Named(i) if i == rf.as_str()));
+                                match fv {
+                                    Some(fv) => {
+                                        let v = self.expr(&fv.expr, env, Some(aty))?;
+                                        let v = self.coerce(e, v, aty)?;
+                                        avs.push(v.t);
+                                    }
+                                    None => return self.err(e, format!("struct literal of {} lacks field {}", tn, rf)),
+                                }
+                            }
+                            return Ok(val(format!("(({}), ({} {}))", avs.join(", "), ctor, args.join(" ")), Ty::Named(tn)));
                         }
                         Ok(val(format!("({} {})", ctor, args.join(" ")), Ty::Named(tn)))
                     }
@@ -2181,9 +2351,19 @@ impl<'a> Tr<'a> {
     }
 
     fn binary(&self, at: &Expr, op: &BinOp, l: Val, r: Val) -> R<Val> {
-        let lt = l.ty.strip_into().clone();
-        let rt = r.ty.strip_into().clone();
-        let sym = |s: &str, ty: Ty| -> R<Val> { Ok(val(format!("({} {} {})", l.t, s, r.t), ty)) };
+        let mut lt = l.ty.strip_into().clone();
+        let mut rt = r.ty.strip_into().clone();
+        // `f64: PartialOrd<f64>` only: the other operand of an ordering comparison with an f64 is an f64
+        // (a closure parameter whose type was not inferred, e.g. `best_r.map(|best_r| d < best_r)` on `let mut best_r = None`;
+        // Coq type-checks the generated term)
+        if matches!(op, BinOp::Lt(_) | BinOp::Le(_) | BinOp::Gt(_) | BinOp::Ge(_)) {
+            if lt == Ty::F64 && rt == Ty::Unknown {
+                rt = Ty::F64;
+            } else if rt == Ty::F64 && lt == Ty::Unknown {
+                lt = Ty::F64;
+            }
+        }
+        let sym =|s: &str, ty: Ty| -> R<Val> { Ok(val(format!("({} {} {})", l.t, s, r.t), ty)) };
         match (&lt, &rt) {
             (Ty::F64, Ty::F64) => match op {
                 BinOp::Add(_) | BinOp::AddAssign(_) => sym("+", Ty::F64),
@@ -3150,7 +3330,7 @@ fn is_simple_term(t: &str) -> bool {
 }
 
 fn is_list_mutator(m: &str) -> bool {
-    matches!(m, "push" | "swap" | "sort_by" | "clear" | "truncate" | "pop" | "insert" | "extend" | "push_str")
+    matches!(m, "push" | "swap" | "sort_by" | "clear" | "truncate" | "pop" | "insert" | "extend" | "push_str" | "reserve")
 }
 
 fn compound_op(op: &BinOp) -> Option<&BinOp> {
